@@ -53,6 +53,14 @@ reg(
     "DESIGN.md §3 C09",
 )
 
+reg(
+    "C06", "exploration",
+    "trace checker with an independent shadow hierarchy over the internal-event stream, end-of-instance stamps and Start/Stop action events, judged at quiescence",
+    "6.6k (thorough 156k) generated hierarchies (start/await/activate/when-else/groups, actions named after their owner) x histories with late/early/dead-uid Finished events, plus template scenarios (shared identical action, two activators, never-waiting activated flow, nested await). At every quiescent point: ended(starter) => child not running; activated flow has exactly one running instance iff an activator runs (never two; never-waiting kind started once); every Stop preceded by Start, by no other Stop and by no fed Finished; no unfinished unstopped action all of whose owners ended. Two genuine orphan mechanisms are open known findings, recognised structurally (start stamp after the starter's end stamp; surviving restart chain of an ended instance). Held otherwise on the histories observed.",
+    "trusts the hooks on five statemachine functions (looked up through module globals; 0 observed StartFlow events => case inconclusive) and status values read at quiescence; obligations are checked only when run_to_completion returns",
+    "DESIGN.md §3 C06",
+)
+
 NOT_BUILT_REASON = "check not built yet in this revision (claimed by DESIGN.md; see §5 order of work)"
 
 
